@@ -8,6 +8,7 @@ fn main() {
         Some("paych") => paych::main(&args[2..]),
         Some("multisig") => multisig::main(&args[2..]),
         Some("minerctl") => minerctl::main(&args[2..]),
+        Some("market") => market::main(&args[2..]),
         _ => {
             eprintln!("usage: drive <subsystem> ...");
             std::process::exit(2);
